@@ -87,7 +87,8 @@ class PartitionContainerBase(TypeReaderCryptoBase):
         super().close()
 
     def _load_partition(self, index: int, partdesc: bytes, partition_offset: int, partition_size: int):
-        subfile = SubsectionIO(self._file, partition_offset, partition_size)
+        # like the header and the partition table, a partition is found relative to where the container starts in the file
+        subfile = SubsectionIO(self._file, self._start + partition_offset, partition_size)
 
         difi, ivfc, dpfs, master_hash = load_partdesc(partdesc)
 
